@@ -296,17 +296,24 @@ impl QueryRouter {
 
         match command {
             Command::SetShardingKey => {
-                // TODO: some error handling here
-                value = self
-                    .set_sharding_key(value.parse::<i64>().unwrap())
-                    .unwrap()
-                    .to_string();
+                // A number that does not fit a bigint is not a sharding key:
+                // leave the query to the server instead of panicking.
+                let sharding_key = match value.parse::<i64>() {
+                    Ok(sharding_key) => sharding_key,
+                    Err(_) => return None,
+                };
+
+                value = self.set_sharding_key(sharding_key).unwrap().to_string();
             }
 
             Command::SetShard => {
                 self.active_shard = match value.to_ascii_uppercase().as_ref() {
                     "ANY" => Some(rand::random::<usize>() % self.pool_settings.shards),
-                    _ => Some(value.parse::<usize>().unwrap()),
+                    _ => match value.parse::<usize>() {
+                        Ok(shard) => Some(shard),
+                        // Too many digits for a shard number: not a command we can execute.
+                        Err(_) => return None,
+                    },
                 };
             }
 
